@@ -31,84 +31,159 @@ func ruleInput(c *Ctx) {
 		return
 	}
 	writes := interpFieldWrites(c)
-	allowed := map[string]bool{"nextLine": true, "setSpecial": true, "setFile": true, "resetCore": true, "newInterp": true}
-	for _, f := range []string{nr, fnr} {
-		who := map[string]bool{}
-		for _, w := range writes[f] {
-			who[w.fn.Name()] = true
-		}
-		var bad []string
-		for n := range who {
-			if !allowed[n] || (n == "setFile" && f == nr) {
-				bad = append(bad, n)
-			}
-		}
-		sort.Strings(bad)
-		c.check(len(bad) == 0 && who["nextLine"], "counters:writers:"+f, token.NoPos, fmt.Sprintf("%s is written only by %v", f, keys(who)), fmt.Sprintf("%s (record counter) is written by %v, outside nextLine/setSpecial/setFile/reset: the count no longer equals the records taken from the main input", f, bad))
-	}
-	nl := c.ssaFunc("interp", "interp.nextLine")
-	if nl == nil {
-		c.undecided("anchor:nextLine", token.NoPos, "nextLine not found")
-		return
-	}
-	// increments are +1 and dominated by the true edge of Scan()
-	var scanBlk *ssa.BasicBlock
-	allInstrs(nl, func(in ssa.Instruction) {
-		if call, ok := in.(*ssa.Call); ok && call.Call.StaticCallee() != nil && call.Call.StaticCallee().String() == "(*bufio.Scanner).Scan" {
-			for _, r := range *call.Referrers() {
-				if ifi, ok := r.(*ssa.If); ok {
-					scanBlk = ifi.Block()
+	// every write of a record counter is classified by the value written, not by the function it sits in:
+	//   +1   the counter's own value plus one: only after a successful Scan (the record was taken)
+	//   0    a restart: NR only outside everything the record-taking function can call; FNR when a new input
+	//        is installed (those functions are the "set file" role below)
+	//   v    a value parameter: the script's own assignment (the special-variable setter)
+	classify := func(f string, val ssa.Value) string {
+		call, ok := val.(*ssa.Call)
+		if ok && len(call.Call.Args) == 1 {
+			switch a := call.Call.Args[0].(type) {
+			case *ssa.Const:
+				if a.Value != nil && (a.Value.ExactString() == "0") {
+					return "zero"
+				}
+			case *ssa.BinOp:
+				if k, isK := a.Y.(*ssa.Const); isK && a.Op == token.ADD && k.Value != nil && k.Value.ExactString() == "1" {
+					if inner, isCall := a.X.(*ssa.Call); isCall && len(inner.Call.Args) == 1 {
+						if fv, _ := loadedField(inner.Call.Args[0]); fv != nil && fv.Name() == f {
+							return "incr"
+						}
+					}
 				}
 			}
 		}
-	})
-	for _, f := range []string{nr, fnr} {
-		okInc := false
-		allInstrs(nl, func(in ssa.Instruction) {
-			name, val := interpFieldStore(in)
-			if name != f {
-				return
-			}
-			// num(x.num() + 1)
-			call, ok := val.(*ssa.Call)
-			if !ok || len(call.Call.Args) != 1 {
-				return
-			}
-			bo, ok := call.Call.Args[0].(*ssa.BinOp)
-			if !ok || bo.Op != token.ADD {
-				return
-			}
-			k, ok := bo.Y.(*ssa.Const)
-			if !ok || k.Value == nil || k.Value.ExactString() != "1" {
-				return
-			}
-			if scanBlk != nil && scanBlk.Dominates(in.Block()) && !reachableAvoiding(scanBlk.Succs[1], scanBlk)[in.Block()] {
-				okInc = true
-			}
-		})
-		c.check(okInc, "counters:increment:"+f, nl.Pos(), f+" is incremented by exactly 1, only after a successful Scan", f+" is not incremented by exactly one on (only) the successful-scan path of nextLine")
+		if _, isParam := val.(*ssa.Parameter); isParam {
+			return "param"
+		}
+		return "other"
 	}
-	// setFile on every installation of a new input: each store to p.input of a non-nil value is followed in its block by a call of setFile
-	nInst := 0
-	allInstrs(nl, func(in ssa.Instruction) {
-		name, val := interpFieldStore(in)
-		if name != "input" || isNilConst(val) {
+	// the record taker: the function(s) holding the Scan-guarded increments; what it can reach
+	takers := map[*ssa.Function]bool{}
+	for _, f := range []string{nr, fnr} {
+		for _, w := range writes[f] {
+			if w.kind == "store" && classify(f, w.val) == "incr" {
+				takers[w.fn] = true
+			}
+		}
+	}
+	reach := map[*ssa.Function]bool{}
+	var mark func(fn *ssa.Function)
+	mark = func(fn *ssa.Function) {
+		if reach[fn] {
 			return
 		}
-		nInst++
-		okSF := false
-		seen := false
-		for _, i2 := range in.Block().Instrs {
-			if i2 == in {
-				seen = true
+		reach[fn] = true
+		allInstrs(fn, func(in ssa.Instruction) {
+			if call, ok := in.(ssa.CallInstruction); ok {
+				if cal := call.Common().StaticCallee(); cal != nil && cal.Pkg == fn.Pkg {
+					mark(cal)
+				}
 			}
-			if seen && callsNamed(i2, "setFile") {
-				okSF = true
+		})
+	}
+	for t := range takers {
+		mark(t)
+	}
+	setFileFns := map[*ssa.Function]bool{}
+	for _, f := range []string{nr, fnr} {
+		var bad []string
+		nIncr := 0
+		for _, w := range writes[f] {
+			if w.kind != "store" {
+				bad = append(bad, w.fn.Name()+": "+w.kind)
+				continue
+			}
+			switch classify(f, w.val) {
+			case "incr":
+				nIncr++
+			case "zero":
+				if f == fnr && reach[w.fn] {
+					setFileFns[w.fn] = true
+				}
+				if f == nr && reach[w.fn] {
+					bad = append(bad, w.fn.Name()+": NR restarted while input is being read")
+				}
+			case "param":
+			default:
+				bad = append(bad, w.fn.Name()+": a value that is neither the counter plus one, zero, nor the script's assignment")
 			}
 		}
-		c.check(okSF, fmt.Sprintf("counters:setFile#%d", nInst), in.Pos(), "installing a new input is followed by setFile (FILENAME set, FNR restarted)", "nextLine installs a new input without calling setFile: FNR is not restarted / FILENAME not updated for that operand")
-	})
-	c.atLeast("input installations in nextLine", nInst, 3)
+		sort.Strings(bad)
+		c.check(len(bad) == 0 && nIncr > 0, "counters:writers:"+f, token.NoPos, fmt.Sprintf("%s is only incremented by one (%d site), restarted, or assigned by the script", f, nIncr), fmt.Sprintf("%s (record counter) is written in a way that breaks the count %v: it no longer equals the records taken from the main input", f, bad))
+	}
+	if len(takers) == 0 {
+		c.undecided("anchor:nextLine", token.NoPos, "no function increments NR/FNR")
+		return
+	}
+	var nl *ssa.Function
+	for t := range takers {
+		if nl == nil || t.Name() < nl.Name() {
+			nl = t
+		}
+	}
+	// increments are dominated by the true edge of Scan() in their function
+	for _, f := range []string{nr, fnr} {
+		okInc, n := true, 0
+		for _, w := range writes[f] {
+			if w.kind != "store" || classify(f, w.val) != "incr" {
+				continue
+			}
+			n++
+			var scanBlk *ssa.BasicBlock
+			allInstrs(w.fn, func(in ssa.Instruction) {
+				if call, ok := in.(*ssa.Call); ok && call.Call.StaticCallee() != nil && call.Call.StaticCallee().String() == "(*bufio.Scanner).Scan" {
+					for _, r := range *call.Referrers() {
+						if ifi, ok := r.(*ssa.If); ok {
+							scanBlk = ifi.Block()
+						}
+					}
+				}
+			})
+			var blk *ssa.BasicBlock
+			allInstrs(w.fn, func(in ssa.Instruction) {
+				if in.Pos() == w.pos {
+					if _, isStore := in.(*ssa.Store); isStore {
+						blk = in.Block()
+					}
+				}
+			})
+			if scanBlk == nil || blk == nil || !scanBlk.Dominates(blk) || reachableAvoiding(scanBlk.Succs[1], scanBlk)[blk] {
+				okInc = false
+			}
+		}
+		c.check(okInc && n > 0, "counters:increment:"+f, nl.Pos(), f+" is incremented by exactly 1, only after a successful Scan", f+" is not incremented by exactly one on (only) the successful-scan path of the record-taking function")
+	}
+	// set-file on every installation of a new input: each store to p.input of a non-nil value (in any function the
+	// record taker reaches) is followed in its block by a call of a function that restarts FNR
+	nInst := 0
+	for fn := range reach {
+		fn := fn
+		nHere := 0
+		allInstrs(fn, func(in ssa.Instruction) {
+			name, val := interpFieldStore(in)
+			if name != "input" || isNilConst(val) {
+				return
+			}
+			nInst++
+			nHere++
+			okSF := false
+			seen := false
+			for _, i2 := range in.Block().Instrs {
+				if i2 == in {
+					seen = true
+				}
+				if call, ok := i2.(ssa.CallInstruction); ok && seen {
+					if cal := call.Common().StaticCallee(); cal != nil && setFileFns[cal] {
+						okSF = true
+					}
+				}
+			}
+			c.check(okSF, fmt.Sprintf("counters:setFile:%s#%d", fn.Name(), nHere), in.Pos(), "installing a new input is followed by the call that sets FILENAME and restarts FNR", fn.Name()+" installs a new input without calling the function that restarts FNR: FNR is not restarted / FILENAME not updated for that operand")
+		})
+	}
+	c.atLeast("input installations reachable from the record-taking function", nInst, 2)
 
 	// GETLINE: branches of p.getline
 	gl := c.funcDecl("interp", "interp.getline")
@@ -213,8 +288,16 @@ func ruleInput(c *Ctx) {
 	if cc := vm.clauses["CallUser"]; cc != nil {
 		found := false
 		ast.Inspect(cc, func(m ast.Node) bool {
-			if ta, ok := m.(*ast.TypeAssertExpr); ok && isIdent(ta.Type, "returnValue") {
+			if ta, ok := m.(*ast.TypeAssertExpr); ok && ta.Type != nil && isIdent(ta.Type, "returnValue") {
 				found = true
+			}
+			// the same test written as a type switch
+			if cl, ok := m.(*ast.CaseClause); ok {
+				for _, e := range cl.List {
+					if tv, isT := info.Types[e]; isT && tv.IsType() && isIdent(e, "returnValue") {
+						found = true
+					}
+				}
 			}
 			return true
 		})
@@ -222,18 +305,52 @@ func ruleInput(c *Ctx) {
 	}
 	// nextfile drops the scanner
 	if fd := c.funcDecl("interp", "interp.execActions"); fd != nil {
-		okDrop, rangeNil := false, false
+		rangeNil := false
 		var lazyAlloc int
-		ast.Inspect(fd.Body, func(m ast.Node) bool {
-			switch x := m.(type) {
-			case *ast.CaseClause:
-				if len(x.List) == 1 && strings.Contains(types.ExprString(x.List[0]), "errNextfile") {
-					for _, s := range x.Body {
-						if as, ok := s.(*ast.AssignStmt); ok && len(as.Lhs) == 1 && strings.HasSuffix(types.ExprString(as.Lhs[0]), ".scanner") && isIdent(as.Rhs[0], "nil") {
+		// nextfile: on the edge where the error equals errNextfile, the scanner field is set to nil (SSA)
+		okDrop := false
+		for _, fn := range c.srcFuncs("interp") {
+			for _, b := range fn.Blocks {
+				if len(b.Instrs) == 0 {
+					continue
+				}
+				iff, ok := b.Instrs[len(b.Instrs)-1].(*ssa.If)
+				if !ok {
+					continue
+				}
+				bo, ok := iff.Cond.(*ssa.BinOp)
+				if !ok || (bo.Op != token.EQL && bo.Op != token.NEQ) {
+					continue
+				}
+				isSentinel := false
+				for _, side := range []ssa.Value{bo.X, bo.Y} {
+					if ld, ok := side.(*ssa.UnOp); ok && ld.Op == token.MUL {
+						if g, ok := ld.X.(*ssa.Global); ok && g.Name() == "errNextfile" {
+							isSentinel = true
+						}
+					}
+				}
+				if !isSentinel {
+					continue
+				}
+				idx := 0
+				if bo.Op == token.NEQ {
+					idx = 1
+				}
+				for _, d := range fn.Blocks {
+					if d != b.Succs[idx] && !edgeDominates(b, idx, d) {
+						continue
+					}
+					for _, in := range d.Instrs {
+						if name, val := interpFieldStore(in); name == "scanner" && isNilConst(val) {
 							okDrop = true
 						}
 					}
 				}
+			}
+		}
+		ast.Inspect(fd.Body, func(m ast.Node) bool {
+			switch x := m.(type) {
 			case *ast.AssignStmt:
 				for i, l := range x.Lhs {
 					if isIdent(l, "inRange") && i < len(x.Rhs) {
